@@ -64,7 +64,7 @@ func runC04(c c04Case, r *rep.Report) (key, msg string, stats map[string]int64) 
 			so.SetPingInterval(300 * time.Millisecond)
 			so.SetPingTimeout(200 * time.Millisecond)
 			w := rig.NewWorld(rig.Options{Server: so})
-			defer w.Shutdown()
+			defer w.Finish()
 			var clients []*rig.Client
 			seenIDs := map[string]bool{}
 			quiesce := func() bool {
